@@ -14,7 +14,7 @@ Atom(name, el, mass, rn, rs, ri, ch, seg, code, prot, wat, bb, sc, nb) ==
 Atoms == << Atom("N","N",14007,"ALA",5,0,0,"A","A",TRUE,FALSE,TRUE,FALSE,1),  Atom("CA","C",12011,"ALA",5,0,0,"A","A",TRUE,FALSE,TRUE,FALSE,3),
             Atom("CB","C",12011,"ALA",5,0,0,"A","A",TRUE,FALSE,FALSE,TRUE,1), Atom("C","C",12011,"ALA",5,0,0,"A","A",TRUE,FALSE,TRUE,FALSE,2),
             Atom("N","N",14007,"GLY",6,1,0,"A","G",TRUE,FALSE,TRUE,FALSE,2),  Atom("CA","C",12011,"GLY",6,1,0,"A","G",TRUE,FALSE,TRUE,FALSE,1),
-            Atom("O","O",15999,"HOH",5,2,1,"B","X",FALSE,TRUE,FALSE,FALSE,2), Atom("H1","H",1008,"HOH",5,2,1,"B","X",FALSE,TRUE,FALSE,FALSE,1),
+            Atom("O","O",15999,"HOH",5,2,1,"B","X",FALSE,TRUE,FALSE,FALSE,2), Atom("H1'","H",1008,"HOH",5,2,1,"B","X",FALSE,TRUE,FALSE,FALSE,1),
             Atom("H2","H",1008,"HOH",5,2,1,"B","X",FALSE,TRUE,FALSE,FALSE,1), Atom("NA","Na",22990,"NA",7,3,1,"B","X",FALSE,FALSE,FALSE,FALSE,0) >>
 NAt == Len(Atoms)
 \* ---- vocabulary: canonical name -> spellings (docs/atom_selection.rst) ----
@@ -31,7 +31,7 @@ StrLitOf == [name |-> {"CA","N"}, el |-> {"C","Na"}, resname |-> {"ALA","HOH"}, 
 IntLitOf == [resSeq |-> {5, 6}, resid |-> {0, 2}, chain |-> {1}, mass |-> {13500, 2000}, index |-> {3}, nbonds |-> {1}]
 \* regular expressions (re.match: anchored at the start) with their match sets over the model's strings
 RePat == [name |-> <<"C.*", "N.*", "H[12]">>, resname |-> <<"A.*", ".*H">>]
-ReMatch == [name |-> << {"CA","CB","C"}, {"N","NA"}, {"H1","H2"} >>, resname |-> << {"ALA"}, {"HOH"} >>]
+ReMatch == [name |-> << {"CA","CB","C"}, {"N","NA"}, {"H1'","H2"} >>, resname |-> << {"ALA"}, {"HOH"} >>]
 \* ---- leaves: semantic part [t,f,op,x,y] + rendered tokens ----
 Val(at, i, f) == IF f = "index" THEN i - 1 ELSE at[f]
 CmpI(op, a, b) == CASE op = "eq" -> a = b [] op = "ne" -> a # b [] op = "lt" -> a < b [] op = "le" -> a <= b [] op = "gt" -> a > b [] op = "ge" -> a >= b
@@ -63,6 +63,9 @@ LeafSet ==
   \cup UNION { { Leaf(Sem("imps", f, "", 0, 0, x, ""), <<W(StrField[f][a]), S(q, x)>>)
                  : a \in 1..Len(StrField[f]), q \in {"bare","single"}, x \in StrLitOf[f] } : f \in DOMAIN StrField }
   \cup UNION { { Leaf(Sem("impi", f, "", x, 0, "", ""), <<W(IntField[f][a]), I(x)>>) : a \in 1..Len(IntField[f]), x \in IntLitOf[f] } : f \in (DOMAIN IntField) \ {"mass"} }
+  \* a name that contains a quote character (primed atom names) can only be written inside the other kind of quotes
+  \cup { Leaf(Sem("cmps", "name", op, 0, 0, "H1'", ""), <<W("name"), W(CmpOps[op][o]), S("double", "H1'")>>) : op \in {"eq","ne"}, o \in 1..2 }
+  \cup { Leaf(Sem("imps", "name", "", 0, 0, "H1'", ""), <<W("name"), S("double", "H1'")>>) }
   \cup UNION { { Leaf(Sem("re", f, "", k, 0, "", ""), <<W(StrField[f][1]), W("=~"), S("single", RePat[f][k])>>) : k \in 1..Len(RePat[f]) } : f \in DOMAIN RePat }
   \cup { Leaf(Sem("ins", f, "", 0, 0, x, y), <<W(StrField[f][1]), S("bare", x), S("bare", y)>>) : f \in {"name","resname"}, x \in {"CA","ALA"}, y \in {"N","HOH"} }
   \cup UNION { { Leaf(Sem("rng", f, "", x, y, "", ""), <<W(IntField[f][a]), I(x), W("to"), I(y)>>)
